@@ -73,8 +73,8 @@ class NtTriplesYielder(BaseTriplesYielder):
 
     def _look_for_last_index_of_bnode_token(self, target_str, first_index):
         index = first_index
-        while index < len(target_str) and not target_str[index].isspace() and target_str[index] != "#":
-            index += 1  # A label ends at a blank or where a comment starts
+        while index < len(target_str) and not target_str[index].isspace() and target_str[index] not in '#<"':
+            index += 1  # A label ends at a blank, where a comment starts, or where the next term starts (no blank needed)
         while index - 1 > first_index and target_str[index - 1] == ".":
             index -= 1  # A label never ends with a dot: it is the final dot of the statement (no blank before it)
         return index - 1
